@@ -189,6 +189,13 @@ impl CacheBuffer {
     /// Reserve capacity for buffer
     pub fn reserve(&mut self, capacity: usize) {
         self.data_buffer.reserve(capacity);
+
+        // reserve() may move data_buffer: data_slice points into it and must follow
+        // (it always covers the whole of data_buffer)
+        if self.data_slice.is_some() {
+            let data_ptr = self.data_buffer.as_ptr();
+            self.data_slice = Some(unsafe { std::slice::from_raw_parts(data_ptr, self.data_buffer.len()) });
+        }
     }
     
     /// Get buffer capacity
